@@ -1484,6 +1484,29 @@ pub fn c13(thorough: bool, replay: Option<String>) -> i32 {
         }
         cases.extend(calls_cases(Some(s), if thorough { 3 } else { 2 }));
         cases.extend(nested_cases(Some(s)));
+        // a user-written function whose compiled code is byte-identical to a helper the compiler generates for a
+        // lambda / a let in another function (same body, same ((outer args) binding) parameter shape), written before
+        // and after it: the table has ONE key for both
+        for user_first in [true, false] {
+            for kind in ["lambda", "let"] {
+                let (user, host) = if kind == "lambda" {
+                    (
+                        Helper::Fun { name: "addpair".into(), inline: false, params: Pat::list(vec![Pat::list(vec![Pat::n("P")]), Pat::n("Q")]), body: E::prim("+", vec![E::v("P"), E::v("Q")]) },
+                        Helper::Fun { name: "mk".into(), inline: false, params: Pat::list(vec![Pat::n("X")]), body: E::Apply(Box::new(E::Lambda(vec!["X".into()], Pat::list(vec![Pat::n("Y")]), Box::new(E::prim("+", vec![E::v("X"), E::v("Y")])))), Box::new(E::List(vec![E::int(3)]))) },
+                    )
+                } else {
+                    (
+                        Helper::Fun { name: "mulsecond".into(), inline: false, params: Pat::list(vec![Pat::list(vec![Pat::n("P"), Pat::n("Q")]), Pat::n("R")]), body: E::prim("*", vec![E::v("R"), E::v("Q")]) },
+                        Helper::Fun { name: "mk".into(), inline: false, params: Pat::list(vec![Pat::n("U"), Pat::n("V")]), body: E::Let(LetKind::Let, vec![("W".into(), E::prim("+", vec![E::v("U"), E::int(1)]))], Box::new(E::prim("*", vec![E::v("W"), E::v("V")]))) },
+                    )
+                };
+                let user_name = if kind == "lambda" { "addpair" } else { "mulsecond" };
+                let helpers = if user_first { vec![user.clone(), host.clone()] } else { vec![host.clone(), user.clone()] };
+                let call_user = if kind == "lambda" { E::call(user_name, vec![E::List(vec![E::v("A")]), E::v("B")]) } else { E::call(user_name, vec![E::List(vec![E::v("A"), E::v("B")]), E::v("A")]) };
+                let call_host = if kind == "lambda" { E::call("mk", vec![E::v("A")]) } else { E::call("mk", vec![E::v("A"), E::v("B")]) };
+                cases.push(Case { prog: Prog { sigil: Some(s), params: Pat::list(vec![Pat::n("A"), Pat::n("B")]), helpers, body: E::List(vec![call_user, call_host]) }, args: vec![T::list(&[T::int(3), T::int(4)])], tags: vec!["same-code-functions".into(), format!("user-and-generated-{}-userfirst:{}", kind, user_first)] });
+            }
+        }
         // accessor functions: the whole body is one parameter (or a constant), so after optimisation the
         // function's code is a bare path atom (a leaf of the function environment)
         for (k, (params, body)) in [
